@@ -133,6 +133,18 @@ theorem Ext.closed_of_mem {s s' : Streams} (hk : KeysOK s.store) (e : Ext s s') 
   · have h1 := hfr.key
     rw [hkx] at h1; omega
 
+/-- the same without knowing that the key is an old one: an entry created on the way has nothing in
+    flight -/
+theorem Ext.closed_or_empty_of_mem {s s' : Streams} (hk : KeysOK s.store) (e : Ext s s') {k : Nat}
+    (hc : ∀ y, s.store.get? k = some y → y.state.isClosed = true)
+    {x' : Stream} (hx' : x' ∈ s'.store.slab) (hkx : x'.key = k) :
+    x'.state.isClosed = true ∨ x'.inFlightRecvData = 0 := by
+  rcases e.slab hk x' hx' with ⟨y, hy, hs⟩ | hfr
+  · have hg := get?_of_mem hk hy
+    rw [← hs.key, hkx] at hg
+    exact .inl (hs.closed (hc y hg))
+  · exact .inr hfr.infl
+
 theorem modCountsA_store (s : Streams) (w : String) (f : Counts → Option Counts) : (s.modCountsA w f).store = s.store := by
   unfold Streams.modCountsA; split
   · rfl
